@@ -14,22 +14,39 @@ import (
 
 // ---- rpm header: Header.Parse + Info.Load ----
 
-func (h *harness) opRpmHdr(b []byte, how string) {
-	lr := newLimit(b, 64*len(b)+4096)
-	var res rpm.HeaderResultForVerif
-	out := guard(func() string {
-		res = rpm.ParseAndLoadForVerif(context.Background(), lr)
-		switch res.Stage {
+// rpmHdrRun runs Header.Parse + Info.Load and renders the canonical answer.
+func (h *harness) rpmHdrRun(lr *limitReader, res *rpm.HeaderResultForVerif) string {
+	return guard(func() string {
+		r := rpm.ParseAndLoadForVerif(context.Background(), lr)
+		if res != nil {
+			*res = r
+		}
+		switch r.Stage {
 		case "parse":
 			return "err:parse"
 		case "load":
 			return "err:load"
 		}
-		i := res.Info
+		i := r.Info
 		return fmt.Sprintf("ok name=%s ver=%s rel=%s epoch=%d arch=%s src=%s mod=%s digest=%s algo=%d sig=%d",
 			hx.Hex([]byte(i.Name)), hx.Hex([]byte(i.Version)), hx.Hex([]byte(i.Release)), i.Epoch, hx.Hex([]byte(i.Arch)),
 			hx.Hex([]byte(i.SourceNEVR)), hx.Hex([]byte(i.Module)), hx.Hex([]byte(i.Digest)), i.DigestAlgo, len(i.Signature))
 	})
+}
+
+func (h *harness) opRpmHdr(b []byte, how string) {
+	lr := newLimit(b, 64*len(b)+4096)
+	var res rpm.HeaderResultForVerif
+	var out string
+	alloc := allocDuring(func() { out = h.rpmHdrRun(lr, &res) })
+	if out != "panic" && out != "hang" && alloc > rpmAllocBound(len(b)) {
+		// memory out of proportion: the listed finding when the make() calls of ReadData for the wanted entries explain it
+		cls := ""
+		if wantedAllocEstimate(b)*2 >= alloc-rpmAllocBound(len(b)) {
+			cls = knownRpmQuadratic
+		}
+		h.r.Fail(cls, fmt.Sprintf("rpm-header-allocation-out-of-proportion allocated=%d header-bytes=%d how=%s header=%s", alloc, len(b), how, hx.Hex(b)))
+	}
 	switch out {
 	case "panic":
 		h.r.Fail("", "rpm-header-panic (Header.Parse + Info.Load) how="+how+" header="+hx.Hex(b))
@@ -160,10 +177,9 @@ func (h *harness) bdbStream() {
 
 // ---- ndb: PackageDB.Parse + AllHeaders ----
 
-func (h *harness) opNdb(b []byte, how string) {
-	lr := newLimit(b, len(b)/8+1000)
-	nh := 0
-	out := guard(func() string {
+// ndbRun runs ndb Parse + AllHeaders and renders the canonical answer.
+func (h *harness) ndbRun(lr *limitReader, b []byte) string {
+	return guard(func() string {
 		var db ndb.PackageDB
 		if err := db.Parse(lr); err != nil {
 			return "err:parse"
@@ -172,7 +188,6 @@ func (h *harness) opNdb(b []byte, how string) {
 		if err != nil {
 			return "err:headers"
 		}
-		nh = len(hs)
 		var sb strings.Builder
 		fmt.Fprintf(&sb, "ok n=%d", len(hs))
 		for _, ra := range hs {
@@ -185,6 +200,22 @@ func (h *harness) opNdb(b []byte, how string) {
 		}
 		return sb.String()
 	})
+}
+
+func (h *harness) opNdb(b []byte, how string) {
+	lr := newLimit(b, len(b)/8+1000)
+	out := h.ndbRun(lr, b)
+	nh := 0
+	if strings.HasPrefix(out, "ok n=") {
+		fmt.Sscanf(out, "ok n=%d", &nh)
+	}
+	if out != "panic" && out != "hang" && lr.bytes > ndbReadBound(len(b)) {
+		cls := ""
+		if ndbChecksumWork(b)*2 >= lr.bytes-ndbReadBound(len(b)) {
+			cls = knownNdbQuadratic
+		}
+		h.r.Fail(cls, fmt.Sprintf("ndb-reads-out-of-proportion bytes-read=%d file-bytes=%d how=%s db=%s", lr.bytes, len(b), how, hx.Hex(b)))
+	}
 	switch out {
 	case "panic":
 		h.r.Fail("", "ndb-panic (PackageDB.Parse + AllHeaders) how="+how+" db="+hx.Hex(b))
